@@ -417,6 +417,30 @@ def run_apalache(name, tier, seed, work):
     return dict(name=name, tlc=dict(distinct=0, states=0, wall=time.time() - t0), walk=walk, meta=dict(), scale='-', walker='apalache', obligations=done)
 
 
+def run_tlaps(name, tier, seed, work, module_text=None):
+    """A TLAPS proof (tlapm) of an unbounded inductive-invariant argument.  Design-level only, like run_apalache."""
+    fam = F.FAMILIES[name]
+    t0 = time.time()
+    d = os.path.join(work, 'tlaps-' + fam['module'])
+    shutil.rmtree(d, ignore_errors=True)
+    os.makedirs(d)
+    src = os.path.join(d, fam['module'] + '.tla')
+    if module_text is None:
+        shutil.copy(os.path.join(SPEC, fam['module'] + '.tla'), src)
+    else:
+        open(src, 'w').write(module_text)
+    r = subprocess.run(['timeout', str(fam['timeout'][tier]), 'tlapm', '--threads', '8', '--cleanfp', fam['module'] + '.tla'], cwd=d, stdout=subprocess.PIPE, stderr=subprocess.STDOUT, text=True)
+    m = re.search(r'All (\d+) obligations proved', r.stdout)
+    shutil.rmtree(d, ignore_errors=True)
+    if module_text is not None:
+        return dict(proved=bool(m) and r.returncode == 0, out=r.stdout[-1500:])
+    if not m or r.returncode != 0:
+        raise Undecided('tlapm did not prove %s:\n%s' % (fam['module'], r.stdout[-1500:]))
+    log('[%s] TLAPS: all %s obligations of %s.tla proved in %.0fs (theorems %s)' % (name, m.group(1), fam['module'], time.time() - t0, ', '.join(fam['theorems'])))
+    walk = dict(states=0, edges=0, edges_ok=0, replayed=0, unreached_states=0, skipped_subtrees=0, by_type={}, mismatches=[], n_mismatch=0, samples=[], findings={}, finding_samples={})
+    return dict(name=name, tlc=dict(distinct=0, states=0, wall=time.time() - t0), walk=walk, meta=dict(), scale='-', walker='tlapm', obligations=['%s obligations: %s' % (m.group(1), ', '.join(fam['theorems']))])
+
+
 def run_liveness(name, tier, seed, work):
     """Temporal properties under a fair SPECIFICATION (no VIEW, no constraint); design-level only - the transitions are
     those of the family that E2/E3 bind to the code."""
@@ -436,6 +460,8 @@ def run_family(name, tier, seed, work):
         return run_liveness(name, tier, seed, work)
     if fam.get('kind') == 'apalache':
         return run_apalache(name, tier, seed, work)
+    if fam.get('kind') == 'tlaps':
+        return run_tlaps(name, tier, seed, work)
     if fam.get('kind') == 'replicas':
         return run_replicas(name, tier, seed, work)
     if fam.get('kind') == 'formats':
